@@ -77,7 +77,7 @@ func checkC01(c *Ctx) {
 		r.Unres("R01a", "_client.pb.go", "", "unit not found")
 		return
 	}
-	ex := c.Explore(ri.Fn, 1, 4000)
+	ex := c.ExploreT(ri.Fn, 4000)
 	type clientTables struct {
 		req, resp *ctTable
 		consts    map[string]string
